@@ -13,7 +13,8 @@ def alts (tb : Tables) (c : Case) : List Alt :=
   [ { flag := "D14", onInCur := cur.condByIdentity, obs := runModel tb c { cur with condByIdentity := !cur.condByIdentity } },
     { flag := "D07", onInCur := !tb.skip.accumulates,
       obs := runModel tb c { cur with skipTable := if tb.skip.accumulates then Skip.tableAssign else Skip.tableOr } },
-    { flag := "D19", onInCur := cur.fragPathSegment, obs := runModel tb c { cur with fragPathSegment := !cur.fragPathSegment } } ]
+    { flag := "D19", onInCur := cur.fragPathSegment, obs := runModel tb c { cur with fragPathSegment := !cur.fragPathSegment } },
+    { flag := "D20", onInCur := cur.keepValueOnError, obs := runModel tb c { cur with keepValueOnError := !cur.keepValueOnError } } ]
 
 /-- the data part of an observation -/
 def dataOf : T → Option T
